@@ -68,22 +68,20 @@ def digitVal (c : Ch) : Option Nat :=
   else if ch! 'A' ≤ c && c ≤ ch! 'Z' then some (c - ch! 'A' + 10)
   else none
 
-/-- accumulate digits of `base`; returns value (unbounded) — saturation is applied by the caller -/
-def digitsVal (base : Nat) (acc : Nat) : Str → Nat × Bool   -- (value, any digit seen)
-  | [] => (acc, false)
+/-- accumulate digits of `base`: value (unbounded — saturation is applied by the caller), the
+    unconsumed rest, and whether any digit was seen -/
+def digitsVal (base : Nat) (acc : Nat) (seen : Bool) : Str → Nat × Str × Bool
+  | [] => (acc, [], seen)
   | c :: cs =>
     match digitVal c with
-    | some d =>
-      if d < base then
-        let (v, _) := digitsVal base (acc * base + d) cs
-        (v, true)
-      else (acc, false)
-    | none => (acc, false)
+    | some d => if d < base then digitsVal base (acc * base + d) true cs else (acc, c :: cs, seen)
+    | none => (acc, c :: cs, seen)
 
 def isSpaceC (c : Ch) : Bool := c == 32 || (9 ≤ c && c ≤ 13)
 
-/-- glibc `strtoul(s, NULL, base)` for base 10 or 16, result as a 64-bit value. -/
-def strtoul (s : Str) (base : Nat) : Nat :=
+/-- glibc `strtoul(s, &end, base)` for base 10 or 16: the 64-bit result, what `end` points at,
+    and whether any digits were converted (`end != s`). -/
+def strtoulEnd (s : Str) (base : Nat) : Nat × Str × Bool :=
   let s := s.dropWhile isSpaceC
   let (neg, s) :=
     match s with
@@ -101,8 +99,12 @@ def strtoul (s : Str) (base : Nat) : Nat :=
             | [] => false) then t else s
       | _ => s
     else s
-  let (v, _) := digitsVal base 0 s
-  if v ≥ 2 ^ 64 then 2 ^ 64 - 1
-  else if neg then (2 ^ 64 - v) % 2 ^ 64 else v
+  let (v, rest, seen) := digitsVal base 0 false s
+  let r := if v ≥ 2 ^ 64 then 2 ^ 64 - 1
+           else if neg then (2 ^ 64 - v) % 2 ^ 64 else v
+  (r, rest, seen)
+
+/-- `strtoul(s, NULL, base)` -/
+def strtoul (s : Str) (base : Nat) : Nat := (strtoulEnd s base).1
 
 end AL.Impl
